@@ -230,7 +230,7 @@ func Run(c *vf.Check) {
 		}
 	}
 	vf.Parallel(len(jobs), func(i int) { jobs[i]() })
-	c.Finish("engine S (explicit-state BFS, successor = replay on a fresh DSS object, merged on the model's accepted set + EnoughPartialSig): n=3,4 (thorough ..5), every 2<=t<=n, at every participant (n=4: first and last), keys from seeded polynomials and (n=3; thorough also 4, 5) from the Pedersen, Pedersen fast-sync and Rabin DKG implementations: all histories up to depth n+2 over {own PartialSig(), per other signer: valid partial, value+1 re-signed, signature bit-flipped; own partial echoed back; partial of another session, for another message, with replaced session id, with index n, n+1, 2^32-1 and the receiver's own index}. "+
+	c.Finish("engine S (explicit-state BFS, successor = replay on a fresh DSS object, merged on the model's accepted set + EnoughPartialSig + per-signer delivery counts (capped at 2) + order of own PartialSig() and the echo of the own partial): n=3,4 (thorough ..5), every 2<=t<=n, at every participant (n=4: first and last), keys from seeded polynomials and (n=3; thorough also 4, 5) from the Pedersen, Pedersen fast-sync and Rabin DKG implementations: all histories up to depth n+2 over {own PartialSig(), per other signer: valid partial, value+1 re-signed, signature bit-flipped; own partial echoed back; partial of another session, for another message, with replaced session id, with index n, n+1, 2^32-1 and the receiver's own index}. "+
 		"Oracle after every transition: ProcessPartialSig succeeds exactly for a first valid partial of this session; EnoughPartialSig <=> |accepted| >= t; Signature() errors below t and otherwise returns exactly R || (k + H(R,A,m) x) computed with math/big from the polynomials, which verifies under dss.Verify, eddsa.Verify and crypto/ed25519 - identical in every state and at every participant. "+
 		"non-trivial = histories of length >= 2 reaching a new accepted set",
 		[]string{"distributed keys: (share, commitment) pairs of seeded polynomials for every n, t; for the thresholds the DKGs accept additionally the outputs of all-honest runs of the real Pedersen (regular and fast-sync) and Rabin DKG code, the reference secret then interpolated in math/big from the shares", "state merging assumes the accepted set determines future behaviour"}, nil)
@@ -334,7 +334,33 @@ func explore(c *vf.Check, src string, n, t, p int, msg []byte) {
 					as = append(as, i)
 				}
 				sort.Ints(as)
-				key = fmt.Sprint(as, enough)
+				// merged on the accepted set AND on how often a valid partial of each signer was delivered (capped at
+				// 2) and in which order the observer's own PartialSig() and the echo of its own partial happened: the
+				// object may keep duplicates that the accepted set does not show
+				cnt := map[int]int{}
+				own := ""
+				for _, ev := range hist {
+					switch {
+					case ev == "own":
+						own += "o"
+					case strings.HasPrefix(ev, "echo-own:"):
+						own += "e"
+					case strings.HasPrefix(ev, "valid:"):
+						var i int
+						fmt.Sscanf(ev, "valid:%d", &i)
+						if cnt[i] < 2 {
+							cnt[i]++
+						}
+					}
+				}
+				if len(own) > 3 {
+					own = own[:3]
+				}
+				var cs []string
+				for i := 0; i < n; i++ {
+					cs = append(cs, fmt.Sprint(cnt[i]))
+				}
+				key = fmt.Sprint(as, enough, own, cs)
 				c.Class(fmt.Sprintf("dss/enough=%v", enough), func() any { return id })
 			})
 			trans++
